@@ -271,7 +271,11 @@ func (dc *ClientDnsConnection) VersionHandshake() (err error) {
 			ClientVersion: dc.protocolVersion,
 		}, time.Second*time.Duration(i))
 		if err == nil {
-			response := resp.(*commands.VersionResponse)
+			response, ok := resp.(*commands.VersionResponse)
+			if !ok {
+				err = errors.Errorf("Invalid response -- expected VersionResponse")
+				continue
+			}
 			dc.userId = response.UserId
 
 			log.Debugf("Version ok, both using protocol v 0x%08x. You are user #%d", ProtocolVersion, dc.userId)
